@@ -6,8 +6,10 @@ use crate::cache::cache::{
 };
 use crate::cache::error::{CacheError, Result};
 
+use std::collections::hash_map::DefaultHasher;
+use std::hash::{Hash, Hasher};
 use std::str;
-use std::sync::Arc;
+use std::sync::{Arc, Mutex, MutexGuard};
 
 pub type Record = CacheRecord;
 pub type Meta = CacheMeta;
@@ -34,14 +36,34 @@ pub struct DeltaResult {
  */
 pub struct MemcStore {
     store: Arc<dyn Cache + Send + Sync>,
+    /// Commands that change an item hold the lock of the item's stripe, so
+    /// that the commands made of a lookup followed by a store (add, replace,
+    /// append, prepend, incr, decr) take effect atomically.
+    key_locks: Vec<Mutex<()>>,
 }
+
+const KEY_LOCK_STRIPES: usize = 64;
 
 impl MemcStore {
     pub fn new(store: Arc<dyn Cache + Send + Sync>) -> MemcStore {
-        MemcStore { store }
+        MemcStore {
+            store,
+            key_locks: (0..KEY_LOCK_STRIPES).map(|_| Mutex::new(())).collect(),
+        }
+    }
+
+    fn lock_key(&self, key: &KeyType) -> MutexGuard<'_, ()> {
+        let mut hasher = DefaultHasher::new();
+        key.hash(&mut hasher);
+        let stripe = (hasher.finish() as usize) % KEY_LOCK_STRIPES;
+        // the lock guards no data: a poisoned one is as good as new
+        self.key_locks[stripe]
+            .lock()
+            .unwrap_or_else(|poisoned| poisoned.into_inner())
     }
 
     pub fn set(&self, key: KeyType, record: Record) -> Result<SetStatus> {
+        let _key_lock = self.lock_key(&key);
         self.store.set(key, record)
     }
 
@@ -54,21 +76,24 @@ impl MemcStore {
     // }
 
     pub fn add(&self, key: KeyType, record: Record) -> Result<SetStatus> {
-        match self.get(&key) {
+        let _key_lock = self.lock_key(&key);
+        match self.store.get(&key) {
             Ok(_record) => Err(CacheError::KeyExists),
-            Err(_err) => self.set(key, record),
+            Err(_err) => self.store.set(key, record),
         }
     }
 
     pub fn replace(&self, key: KeyType, record: Record) -> Result<SetStatus> {
-        match self.get(&key) {
-            Ok(_record) => self.set(key, record),
+        let _key_lock = self.lock_key(&key);
+        match self.store.get(&key) {
+            Ok(_record) => self.store.set(key, record),
             Err(_err) => Err(CacheError::NotFound),
         }
     }
 
     pub fn append(&self, key: KeyType, new_record: Record) -> Result<SetStatus> {
-        match self.get(&key) {
+        let _key_lock = self.lock_key(&key);
+        match self.store.get(&key) {
             Ok(mut record) => {
                 record.header.cas = new_record.header.cas;
                 let mut value =
@@ -76,14 +101,15 @@ impl MemcStore {
                 value.extend_from_slice(&record.value);
                 value.extend_from_slice(&new_record.value);
                 record.value = value.freeze();
-                self.set(key, record)
+                self.store.set(key, record)
             }
             Err(_err) => Err(CacheError::NotFound),
         }
     }
 
     pub fn prepend(&self, key: KeyType, new_record: Record) -> Result<SetStatus> {
-        match self.get(&key) {
+        let _key_lock = self.lock_key(&key);
+        match self.store.get(&key) {
             Ok(mut record) => {
                 let mut value =
                     BytesMut::with_capacity(record.value.len() + new_record.value.len());
@@ -91,7 +117,7 @@ impl MemcStore {
                 value.extend_from_slice(&record.value);
                 record.value = value.freeze();
                 record.header.cas = new_record.header.cas;
-                self.set(key, record)
+                self.store.set(key, record)
             }
             Err(_err) => Err(CacheError::NotFound),
         }
@@ -122,7 +148,8 @@ impl MemcStore {
         delta: DeltaParam,
         increment: bool,
     ) -> Result<DeltaResult> {
-        match self.get(&key) {
+        let _key_lock = self.lock_key(&key);
+        match self.store.get(&key) {
             Ok(mut record) => {
                 str::from_utf8(&record.value)
                     .map(|value: &str| {
@@ -148,7 +175,7 @@ impl MemcStore {
                         let flags = record.header.flags;
                         record.header = header;
                         record.header.flags = flags;
-                        self.set(key, record).map(|result| DeltaResult {
+                        self.store.set(key, record).map(|result| DeltaResult {
                             cas: result.cas,
                             value,
                         })
@@ -166,7 +193,7 @@ impl MemcStore {
                         0,
                         header.get_expiration(),
                     );
-                    return self.set(key, record).map(|result| DeltaResult {
+                    return self.store.set(key, record).map(|result| DeltaResult {
                         cas: result.cas,
                         value: delta.value,
                     });
@@ -177,10 +204,17 @@ impl MemcStore {
     }
 
     pub fn delete(&self, key: KeyType, header: Meta) -> Result<Record> {
+        let _key_lock = self.lock_key(&key);
         self.store.delete(key, header)
     }
 
     pub fn flush(&self, header: Meta) {
+        // a flush concerns every key: all stripes, always in the same order
+        let _key_locks: Vec<MutexGuard<'_, ()>> = self
+            .key_locks
+            .iter()
+            .map(|lock| lock.lock().unwrap_or_else(|poisoned| poisoned.into_inner()))
+            .collect();
         self.store.flush(header)
     }
 }
